@@ -420,13 +420,28 @@ func (cr *cursor) startIteration(text []rune, i int) {
 	// rule LB25 looks one class ahead of ( OP | HY ): following rule LB9,
 	// the combining marks attached to it must be skipped
 	cr.nextLineAfterMarks = cr.nextLine
-	if (cr.line == ucd.BreakOP || cr.line == ucd.BreakHY) && (cr.nextLine == ucd.BreakCM || cr.nextLine == ucd.BreakZWJ) {
+	if (cr.line == ucd.BreakOP || cr.line == ucd.BreakHY) && isLineCombining(cr.nextLine, cr.next) {
 		for j := i + 2; j < len(text); j++ {
 			cr.nextLineAfterMarks = ucd.LookupLineBreakClass(text[j])
-			if cr.nextLineAfterMarks != ucd.BreakCM && cr.nextLineAfterMarks != ucd.BreakZWJ {
+			if !isLineCombining(cr.nextLineAfterMarks, text[j]) {
 				break
 			}
 		}
+	}
+}
+
+// isLineCombining returns true if the rune [r], with (unresolved) line break class [class],
+// is handled as a combining mark by rule LB9 : CM, ZWJ, and, following
+// rule LB1, the SA characters with general category Mn or Mc
+func isLineCombining(class lineBreakClass, r rune) bool {
+	switch class {
+	case ucd.BreakCM, ucd.BreakZWJ:
+		return true
+	case ucd.BreakSA:
+		generalCategory := ucd.LookupType(r)
+		return generalCategory == unicode.Mn || generalCategory == unicode.Mc
+	default:
+		return false
 	}
 }
 
